@@ -77,9 +77,9 @@ func ruleC03Gate(c *Ctx) {
 			continue
 		}
 		n++
-		c.Guard(rule, fn, sites, "mutating backend call", isUnlockCall,
-			atom("ReadOnly == false", "!$0.ReadOnly"),
-			Need{Desc: "controller write lock taken", Instr: isWLockCall})
+		c.Guard(rule, fn, sites, "mutating backend call", lockOrUnlock,
+			atom("ReadOnly == false, read in the lock region of the call", "!$0.ReadOnly"),
+			needWLock("controller write lock taken"))
 	}
 	// who-may-call the multi-writer: only the replicator methods
 	for _, fn := range c.P.AllFns {
@@ -255,7 +255,7 @@ func ruleC04Verify(rule string) ruleFn {
 		ckpt := "controller.getReplicaCheckpoint($1)#0"
 		counter := fRepl + "GetRevisionCounter($0.backend," + rwAddr + ")"
 		needs := []Need{
-			Need{Desc: "controller write lock taken", Instr: isWLockCall},
+			needWLock("controller write lock taken"),
 			atom("lookup of current/RW replica succeeded", "+"+cur+"#2 -nil ==0"),
 			atom("replica is WO", `+"WO" -`+cur+`#0.Mode ==0`),
 			atom("RW chain fetched", "+"+rwChain+"#1 -nil ==0"),
@@ -267,7 +267,7 @@ func ruleC04Verify(rule string) ruleFn {
 			atom("replica switched to RW", "+"+fRepl+`SetReplicaMode($0.backend,$1,"RW") -nil ==0`),
 			atom("revision counter copied from the RW replica", "+"+fRepl+"SetRevisionCounter($0.backend,$1,"+counter+"#0) -nil ==0"),
 		}
-		c.Guard(rule, fn, promo, "promote to RW", isUnlockCall, needs...)
+		c.Guard(rule, fn, promo, "promote to RW", lockOrUnlock, needs...)
 		// DeepEqual over the two chains (any slicing of them)
 		deq := func(b *ssa.BasicBlock, k int) bool {
 			iff, ok := b.Instrs[len(b.Instrs)-1].(*ssa.If)
@@ -379,9 +379,9 @@ func ruleC04ReadGate(c *Ctx) {
 	fn := c.Anchor(rule, fCtl+"ReadAt")
 	if fn != nil {
 		sites := CallsTo(fn, fRepl+"ReadAt")
-		c.Guard(rule, fn, sites, "backend.ReadAt", isUnlockCall,
+		c.Guard(rule, fn, sites, "backend.ReadAt", lockOrUnlock,
 			atom("some replica exists", "+len($0.replicas) !=0"),
-			Need{Desc: "controller lock taken", Instr: isLockCall},
+			needLock("controller lock taken"),
 			atom("not a lone WO replica", "+len($0.replicas) -1 !=0", `+"WO" -$0.replicas[+0].Mode !=0`))
 	}
 	// WHO: interface I/O calls inside package controller
@@ -473,7 +473,7 @@ func ruleC05Monitor(rule string) ruleFn {
 					c.Bad(rule, key, c.P.InstrPos(recv), "monitor error does not mark the replica ERR", c.witness(ws[0]))
 				}
 				// lock before mode change
-				c.Guard(rule, fn, CallsTo(fn, fCtl+"setReplicaModeNoLock", fCtl+"RemoveReplicaNoLock"), "membership change", isUnlockCall, Need{Desc: "controller write lock taken", Instr: isWLockCall})
+				c.Guard(rule, fn, CallsTo(fn, fCtl+"setReplicaModeNoLock", fCtl+"RemoveReplicaNoLock"), "membership change", lockOrUnlock, needWLock("controller write lock taken"))
 			}
 		}
 		// handleErrorNoLock marks every failed address ERR
@@ -782,7 +782,7 @@ func ruleC18(c *Ctx) {
 			atom("replication factor not reached", "+"+fCtl+"verifyReplicationFactor($0) -nil ==0"),
 			atom("canAdd", fCtl+"canAdd($0,$1)#0"),
 			atom("backend created", "+invoke.Create($0.factory,$1)#1 -nil ==0"))
-		c.Guard(rule, fn, sites, "admission", isUnlockCall, Need{Desc: "controller write lock (re)taken", Instr: isWLockCall})
+		c.Guard(rule, fn, sites, "admission", lockOrUnlock, needWLock("controller write lock (re)taken"))
 		// the replication-factor check must hold in the lock region of the admission itself
 		// (the lock is dropped around factory.Create: a check made before that is stale)
 		c.Guard("C18-RF", fn, sites, "admission", func(in ssa.Instruction) bool { return isUnlockCall(in) || isLockCall(in) },
@@ -839,7 +839,7 @@ func ruleC09(c *Ctx) {
 			atom("registrant is not rebuilding", `+"rebuilding" -$1.RepState !=0`),
 			atom("no replica attached yet", "-len($0.replicas) >=0"),
 			atom("registrant has a UUID", `+"" -$1.UUID !=0`),
-			Need{Desc: "controller write lock taken", Instr: isWLockCall})
+			needWLock("controller write lock taken"))
 		// leader stores
 		for i, s := range StoresTo(fn, "Controller", "MaxRevReplica") {
 			v := R.V(s.(*ssa.Store).Val)
@@ -968,11 +968,11 @@ func ruleC09(c *Ctx) {
 		var sites []ssa.Instruction
 		sites = append(sites, CallsTo(fn, fCtl+"reset")...)
 		sites = append(sites, CallsTo(fn, fCtl+"addReplicaDuringStartNoLock")...)
-		c.Guard(rule, fn, sites, "start volume", isUnlockCall,
+		c.Guard(rule, fn, sites, "start volume", lockOrUnlock,
 			atom("addresses given", "+len($1) !=0"),
 			atom("no replica attached", "-len($0.replicas) >=0"),
 			atom("request comes from the signalled leader", `+$1[+0] -(("tcp://" + $0.MaxRevReplica) + ":9502") ==0`),
-			Need{Desc: "controller write lock taken", Instr: isWLockCall})
+			needWLock("controller write lock taken"))
 		// conflict marking
 		var marks []ssa.Instruction
 		for _, s := range CallsTo(fn, fCtl+"setReplicaModeNoLock") {
@@ -1056,8 +1056,8 @@ func ruleC13Ctl(c *Ctx) {
 	c.Doc(rule, "Controller.Snapshot: the fan-out is cut off by c.Lock() (no release) and RWReplicaCount==ReplicationFactor; replicator.Snapshot: one backend.Snapshot(name,userCreated,created) per non-ERR backend with the caller's arguments, wg.Wait before return, failures returned; UpdateCheckpoint: Checkpoint is non-empty only when rw==RF, GetLatestSnapshot ok and SetCheckpoint ok; GetLatestSnapshot: chain[1] of every RW chain must agree and chains of all backends were fetched; SetCheckpoint: nil only if every backend stored it")
 	if fn := c.Anchor(rule, fCtl+"Snapshot"); fn != nil {
 		sites := CallsTo(fn, fRepl+"Snapshot")
-		c.Guard(rule, fn, sites, "snapshot fan-out", isUnlockCall,
-			Need{Desc: "controller write lock taken", Instr: isWLockCall},
+		c.Guard(rule, fn, sites, "snapshot fan-out", lockOrUnlock,
+			needWLock("controller write lock taken"),
 			atom("all RF replicas are RW", "+$0.RWReplicaCount -$0.ReplicationFactor ==0"))
 		R := NewRenderer(fn)
 		for _, s := range sites {
@@ -1264,8 +1264,8 @@ func ruleC16Ctl(c *Ctx) {
 		return
 	}
 	sz := "phi{0 | github.com/docker/go-units.RAMInBytes($2)#0}"
-	c.Guard(rule, fn, CallsTo(fn, fRepl+"Resize"), "backend.Resize", isUnlockCall,
-		Need{Desc: "controller write lock taken", Instr: isWLockCall},
+	c.Guard(rule, fn, CallsTo(fn, fRepl+"Resize"), "backend.Resize", lockOrUnlock,
+		needWLock("controller write lock taken"),
 		atom("volume name matches", "+$0.Name -$1 ==0"),
 		atom("size parsed", `+"" -$2 ==0`, "+github.com/docker/go-units.RAMInBytes($2)#1 -nil ==0"),
 		atom("new size >= old size", "-$0.size +"+sz+" >=0"),
